@@ -445,6 +445,15 @@ func extractC01() *lean {
 		l.def("flow_"+fn, "List String", leanStrList(flow(util, fn)), flow(util, fn))
 	}
 
+	// deepening round 3: full control flow of the revocation lookup (store read -> IsRevoked / GetRevocation) and of the presenter = subject rule
+	for _, fn := range []string{"IsRevoked", "GetRevocation"} {
+		l.def("flow_"+fn, "List String", leanStrList(flow(ver, fn)), flow(ver, fn))
+	}
+	l.def("flow_GetRevocations", "List String", leanStrList(flow(leiaF, "GetRevocations")), flow(leiaF, "GetRevocations"))
+	for _, fn := range []string{"PresenterIsCredentialSubject", "ResolveSubjectDID"} {
+		l.def("flow_"+fn, "List String", leanStrList(flow(util, fn)), flow(util, fn))
+	}
+
 	// StatusList2021.update: how a refreshed list replaces the stored copy (every column, the expanded bitstring included)
 	var onConflict []string
 	if fd := funcDecl(slv, "update"); fd != nil {
